@@ -1,6 +1,7 @@
 """C07 — length frames content: truncated/damaged files never yield altered sections."""
 import io
 import json
+import sys
 import re
 
 import adapters
@@ -19,15 +20,32 @@ ASSUMPTIONS = [
 
 
 class Tracking(io.BytesIO):
+    """records content reads that obtained fewer bytes than asked for.  A content read is a
+    `read(n)` not issued by the header scanner `_read_until` (told apart by the calling
+    frame; when no frame of that name is ever seen — the code was reorganised — by the
+    block size, which misses contents whose declared length equals the block size)"""
+
     def __init__(self, data):
         io.BytesIO.__init__(self, data)
-        self.short = []
+        self.by_frame = []
+        self.by_size = []
+        self.saw_scanner = False
 
     def read(self, n=-1):
         r = io.BytesIO.read(self, n)
-        if n is not None and n >= 0 and len(r) < n and n != 96:
-            self.short.append((n, len(r)))
+        caller = sys._getframe(1).f_code.co_name
+        if caller == '_read_until':
+            self.saw_scanner = True
+        if n is not None and n >= 0 and len(r) < n:
+            if caller != '_read_until':
+                self.by_frame.append((n, len(r)))
+            if n != 96:
+                self.by_size.append((n, len(r)))
         return r
+
+    @property
+    def short(self):
+        return self.by_frame if self.saw_scanner else self.by_size
 
 
 def read_tracked(data):
